@@ -8,6 +8,13 @@ import numpy as np
 import propkit
 import vlib
 
+MANIFEST = {
+  "text": "proof: unit-norm / proper-rotation theorems over R about the Gallina definitions regenerated from math.py on every run (quat_integrate, mul_quat, axis_angle_to_quat, quat_to_mat, wp.normalize semantics incl. the zero quaternion); float32 rounding and the kernels that call these functions are covered by T-validation and an implementation-level oracle only",
+  "note": "trusted: Coq kernel; translator bin/translate.py (validated each run against the compiled Warp functions on random inputs); Base/Vec.v copy of Warp's normalize; real-number axioms of Coq's Reals",
+  "technique": "Rocq proof over functions machine-translated from the source (T), plus translation validation and differential oracle",
+  "engine": "coq",
+}
+
 PROPS = "Props/C23.v"
 FUNCS = ["mul_quat", "quat_integrate", "axis_angle_to_quat", "quat_to_mat", "rot_vec_quat", "quat_inv"]
 
